@@ -1,8 +1,8 @@
 package main
 
 import (
-	"go/token"
 	"fmt"
+	"go/token"
 	"sort"
 	"strings"
 
@@ -12,7 +12,7 @@ import (
 var blockBuckets = map[string]bool{
 	"BlockHeadersByNumber": true, "BlockHeaderNumbersByHash": true, "BlockCommitments": true, "BlockTransactions": true,
 	"StateUpdatesByBlockNumber": true, "TransactionBlockNumbersAndIndicesByHash": true, "L1HandlerTxnHashByMsgHash": true,
-	"ChainHeight": true,
+	"ChainHeight":                      true,
 	"DeprecatedContractStorageHistory": true, "DeprecatedContractNonceHistory": true, "DeprecatedContractClassHashHistory": true,
 	"ContractStorageHistory": true, "ContractNonceHistory": true, "ContractClassHashHistory": true,
 }
@@ -78,10 +78,10 @@ func init() {
 
 		// no-underflow
 		exc := map[string]string{
-			"(*migration/historyprunner.Migrator).runRestorer: chainHeight - oldestBlockKept":      "progress readout only (keeperWindow for the logger); oldestBlockKept ≤ pivot ≤ chainHeight at pin time and the chain only grows",
+			"(*migration/historyprunner.Migrator).runRestorer: chainHeight - oldestBlockKept":        "progress readout only (keeperWindow for the logger); oldestBlockKept ≤ pivot ≤ chainHeight at pin time and the chain only grows",
 			"(*migration/historyprunner.Migrator).runRestorer: m.restorerProgress - oldestBlockKept": "progress readout only; preceded by m.restorerProgress = max(oldestBlockKept, m.restorerProgress)",
-			"(*migration/historyprunner.Migrator).runStager: chainHeight - oldestBlockKept":        "progress readout only (keeperWindow for the logger)",
-			"(*migration/historyprunner.Migrator).runStager: m.stagerProgress - oldestBlockKept":   "progress readout only; preceded by m.stagerProgress = max(oldestBlockKept, m.stagerProgress)",
+			"(*migration/historyprunner.Migrator).runStager: chainHeight - oldestBlockKept":          "progress readout only (keeperWindow for the logger)",
+			"(*migration/historyprunner.Migrator).runStager: m.stagerProgress - oldestBlockKept":     "progress readout only; preceded by m.stagerProgress = max(oldestBlockKept, m.stagerProgress)",
 		}
 		n := c.usubRule("no-underflow", func(fn *ssa.Function) bool {
 			pr := pkgRelOf(fn)
@@ -557,7 +557,7 @@ func c16MarkerWithHistory(c *Ctx) {
 	}
 	var marks []Site
 	for _, s := range allSites {
-		if (s.Callee != nil && s.Callee.Name() == "DeleteRange" || s.Method != nil && s.Method.Name() == "DeleteRange") {
+		if s.Callee != nil && s.Callee.Name() == "DeleteRange" || s.Method != nil && s.Method.Name() == "DeleteRange" {
 			all := ""
 			for _, a := range s.Args() {
 				all += termF(a) + " "
@@ -658,7 +658,6 @@ func c16BloomWindowAndScratch(c *Ctx) {
 		c.und("scratch-wiped-last", "wipeScratchSpace callers", "", "no caller found")
 	}
 }
-
 
 // c16BoundOK: v never exceeds the block-count floor: it is `X − retained` (term contains want), min(…) of such a value, a
 // φ / local of such values, or the result of a same-package helper that returns its floor parameter or min(…, parameter).
